@@ -4,10 +4,12 @@ import OpusProofs.RangeCoderLockstep
 -/
 namespace Opus.RangeCoder
 
-/-- Decoder side of the lock-step, for every operation other than `ec_dec_uint`: if the decoder returns
-    the value the operation encoded, then its `(rng, nbits_total)` makes the transition `Op.rn` — the
-    same as the encoder's — whatever the buffer contents, `val` and the error flags. -/
-theorem decOp_rn (d : Dec) (op : Op) (hr : RngOk d) (hl : op.Legal) (hnu : ∀ v ft, op ≠ .uint v ft)
+/-- Decoder side of the lock-step: if the decoder returns the value the operation encoded, then its
+    `(rng, nbits_total)` makes the transition `Op.rn` — the same as the encoder's — whatever the buffer
+    contents.  For `ec_dec_uint` the decoder's `val` must be an `opus_uint32` and its error flag clear
+    before and after (a value above the range is reported through that flag). -/
+theorem decOp_rn (d : Dec) (op : Op) (hr : RngOk d) (hl : op.Legal)
+    (hu : (∀ v ft, op ≠ .uint v ft) ∨ (d.val < 4294967296 ∧ d.error = 0 ∧ (decOp d op).2.error = 0))
     (hm : op.Matches (decOp d op).1) :
     ((decOp d op).2.rng, (decOp d op).2.nbitsTotal) = op.rn d.rng d.nbitsTotal := by
   cases op with
@@ -64,6 +66,29 @@ theorem decOp_rn (d : Dec) (op : Op) (hr : RngOk d) (hl : op.Legal) (hnu : ∀ v
     simp only [decOp, Op.rn, b1, b2]
   | patchInitial v n => rfl
   | shrink size => rfl
-  | uint v ft => exact absurd rfl (hnu v ft)
+  | uint v ft =>
+    obtain ⟨l1, l2, l3⟩ := hl
+    obtain ⟨hv, he0, he⟩ : d.val < 4294967296 ∧ d.error = 0 ∧ (decOp d (.uint v ft)).2.error = 0 := by
+      rcases hu with hu | hu
+      · exact absurd rfl (hu v ft)
+      · exact hu
+    simp only [decOp, Op.Matches] at hm he ⊢
+    by_cases hb : ilog (ft - 1) > 8
+    · rw [decUint_hi d ft hb] at hm he ⊢
+      have hftb24 : ilog (ft - 1) - 8 ≤ 24 := by
+        have : ilog (ft - 1) ≤ 32 := by rw [ilog_lt_iff]; omega
+        omega
+      obtain ⟨t1, t2⟩ := uintHi_rn d v (ft - 1) (ilog (ft - 1) - 8) hr hv he0 hftb24 (uint_hi_ft_le l1 hb)
+        (uint_hi_legal l1 l2 l3 hb) hm he
+      simp only [Op.rn, if_pos hb]
+      rw [t1, t2]
+    · rw [decUint_lo d ft hb] at hm ⊢
+      simp only at hm ⊢
+      have hleg := uint_lo_legal l1 l3 hb
+      have hc1 : (decode d (ft - 1 + 1)).2 = { d with ext := d.rng / (ft - 1 + 1) } := rfl
+      rw [hc1, hm]
+      obtain ⟨t1, t2⟩ := decUpdate_rn2 { d with ext := d.rng / (ft - 1 + 1) } v (v + 1) (ft - 1 + 1) ⟨hr.1, hr.2⟩ hleg rfl
+      simp only [Op.rn, if_neg hb]
+      rw [t1, t2]
 
 end Opus.RangeCoder
